@@ -593,20 +593,29 @@ def overused_constant(source: str, *, root_is_static: bool) -> str:
             common_scopes, key=lambda node: getattr(node, "lineno", 0), default=root
         )
         nodes = list(nodes)
+        static = best_common_scope is root and root_is_static
+        variable_name = None
         if (
             core.match_template(nodes[0], ast.Constant(value=str))
             and nodes[0].value.isascii()  # The words of a name are only found among ascii letters
             and re.match(r"[a-zA-Z_]\w*", nodes[0].value)
             and re.sub(r"[^a-zA-Z0-9_]", "", nodes[0].value)
         ):
-            variable_name = nodes[0].value
-        else:
-            variable_name = f"pyrefact_overused_constant_{i}"
+            variable_name = style.rename_variable(nodes[0].value, static=static, private=False)
+            if variable_name in blacklisted_names:
+                variable_name = None  # Taken by something else, use a numbered name instead
+
+        if variable_name is None:
+            while f"pyrefact_overused_constant_{i}" in blacklisted_names and i < 100:
+                i += 1
+            if f"pyrefact_overused_constant_{i}" in blacklisted_names:
+                continue
+            variable_name = style.rename_variable(
+                f"pyrefact_overused_constant_{i}", static=static, private=False
+            )
             i += 1
 
-        variable_name = style.rename_variable(
-            variable_name, static=best_common_scope is root and root_is_static, private=False
-        )
+        blacklisted_names |= {variable_name, variable_name.lower(), variable_name.upper()}
 
         name = ast.Name(id=variable_name)
         assign = core.parse(f"{variable_name} = {code}").body[0]
